@@ -35,7 +35,7 @@ int main(int argc,char **argv){
   nspos=ftell(fo); fwrite(&ns,4,1,fo);
   while(getline(&line,&cap,cf)>0){
     long idx,rate,mx,nom,mn,n; int ch; char mode[8],sig[32],ctl[128]; double q; int ret; long done=0; int eos=0,i;
-    vorbis_info vi; vorbis_comment vc; vorbis_dsp_state vd; vorbis_block vb; ogg_packet op;
+    vorbis_info vi; vorbis_comment vc; vorbis_dsp_state vd; vorbis_block vbs[4]; ogg_packet op; int nblocks=1,reinit=0,ncomments=1,curb=0,sincere=0;
     if(sscanf(line,"%ld %ld %d %7s %lf %ld %ld %ld %31s %ld %127s",&idx,&rate,&ch,mode,&q,&mx,&nom,&mn,sig,&n,ctl)!=11)continue;
     npk=0; lcg=12345u+(unsigned)idx*7u;
     vorbis_info_init(&vi);
@@ -46,28 +46,36 @@ int main(int argc,char **argv){
         if(!strncmp(t,"lp=",3)){ double v=atof(t+3); ret=vorbis_encode_ctl(&vi,OV_ECTL_LOWPASS_SET,&v); }
         else if(!strncmp(t,"imp=",4)){ double v=atof(t+4); ret=vorbis_encode_ctl(&vi,OV_ECTL_IBLOCK_SET,&v); }
         else if(!strcmp(t,"nocouple")){ int v=0; ret=vorbis_encode_ctl(&vi,OV_ECTL_COUPLING_SET,&v); }
+        else if(!strcmp(t,"nocomment"))ncomments=0;
+        else if(!strncmp(t,"comments=",9))ncomments=atoi(t+9);
+        else if(!strncmp(t,"blocks=",7)){ nblocks=atoi(t+7); if(nblocks<1)nblocks=1; if(nblocks>4)nblocks=4; }
+        else if(!strncmp(t,"reinit=",7))reinit=atoi(t+7);
       }
     }
     if(!ret)ret=vorbis_encode_setup_init(&vi);
     if(ret){ int z=0; fprintf(fi,"%ld %d 0 0 0 0 0 0 0 0\n",idx,ret); fwrite(&z,4,1,fo); ns++; vorbis_info_clear(&vi); continue; }
-    vorbis_comment_init(&vc); vorbis_comment_add_tag(&vc,"T","x");
-    vorbis_analysis_init(&vd,&vi); vorbis_block_init(&vd,&vb);
+    vorbis_comment_init(&vc); { int k; char tg[32]; for(k=0;k<ncomments;k++){ snprintf(tg,sizeof(tg),"T%d",k); vorbis_comment_add_tag(&vc,tg,k%3?"x":""); } }
+    vorbis_analysis_init(&vd,&vi); { int k; for(k=0;k<nblocks;k++)vorbis_block_init(&vd,&vbs[k]); }
     { ogg_packet h1,h2,h3; vorbis_analysis_headerout(&vd,&vc,&h1,&h2,&h3); addpk(&h1,1); addpk(&h2,0); addpk(&h3,0); }
     while(!eos){
       if(done>=n)vorbis_analysis_wrote(&vd,0);
       else{ long c=n-done>1024?1024:n-done,j; int k; float **b=vorbis_analysis_buffer(&vd,c);
         for(j=0;j<c;j++)for(k=0;k<ch;k++)b[k][j]=sigval(sig,done+j,k,rate);
         vorbis_analysis_wrote(&vd,c); done+=c; }
-      while(vorbis_analysis_blockout(&vd,&vb)==1){
-        vorbis_analysis(&vb,NULL); vorbis_bitrate_addblock(&vb);
+      /* the application may rotate several vorbis_block objects over one dsp state, or re-create its block (codec.h: blocks are independent) */
+      while(vorbis_analysis_blockout(&vd,&vbs[curb])==1){
+        vorbis_analysis(&vbs[curb],NULL); vorbis_bitrate_addblock(&vbs[curb]);
         while(vorbis_bitrate_flushpacket(&vd,&op)){ addpk(&op,0); if(op.e_o_s)eos=1; }
+        sincere++;
+        if(reinit&&sincere>=reinit){ vorbis_block_clear(&vbs[curb]); vorbis_block_init(&vd,&vbs[curb]); sincere=0; }
+        curb=(curb+1)%nblocks;
       }
     }
     fprintf(fi,"%ld 0 %d %ld %ld %ld %ld %ld %ld %d\n",idx,vi.channels,vi.rate,vorbis_info_blocksize(&vi,0),vorbis_info_blocksize(&vi,1),vi.bitrate_upper,vi.bitrate_nominal,vi.bitrate_lower,npk);
     fwrite(&npk,4,1,fo);
     for(i=0;i<npk;i++){ fwrite(&pks[i].len,4,1,fo); fwrite(&pks[i].gp,8,1,fo); fwrite(&pks[i].flags,4,1,fo); fwrite(pks[i].p,1,pks[i].len,fo); __real_free(pks[i].p); }
     ns++;
-    vorbis_block_clear(&vb); vorbis_dsp_clear(&vd); vorbis_comment_clear(&vc); vorbis_info_clear(&vi);
+    { int k; for(k=0;k<nblocks;k++)vorbis_block_clear(&vbs[k]); } vorbis_dsp_clear(&vd); vorbis_comment_clear(&vc); vorbis_info_clear(&vi);
   }
   fseek(fo,nspos,SEEK_SET); fwrite(&ns,4,1,fo); fclose(fo); fclose(fi);
   return 0;
